@@ -39,7 +39,7 @@ CHECKS = {
    note="workspace = key set of diagnostics(); text of a file = what the harness' FileSystem served",
    technique="property-based testing: validity predicate over all query results"),
  "C07": dict(cat="exploration", design="§5 C07",
-   text="Differential oracle after every step of generated edit histories (1..12 operations over a 4-file workspace, 24 text variants per file covering every include subset, renames, moved includes, syntax/type errors, missing includes; server-style and API-style edits, root switches): the long-lived host's full query dump must equal a fresh host's. All ordered pairs of a first operation with a second are enumerated, longer histories are random; also histories over generated (SEM) programs with seven kinds of text variants, disk-only changes of included files, and didOpen/didChange/didClose histories through the real server - with unopened files rewritten on disk, also to same-length texts under an unchanged modification time, and with a file that some variants include in vain appearing, disappearing, being opened unsaved and closed - compared with a fresh analysis of disk overlaid by the open buffers.",
+   text="Differential oracle after every step of generated edit histories (1..12 operations over a 4-file workspace, 24 text variants per file covering every include subset, renames, moved includes, syntax/type errors, missing includes; server-style and API-style edits, root switches): the long-lived host's full query dump must equal a fresh host's. All ordered pairs of a first operation with a second are enumerated, longer histories are random; also histories over generated (SEM) programs with seven kinds of text variants, disk-only changes of included files, and didOpen/didChange/didClose histories through the real server (in a plain workspace directory, in one whose name the editor percent-escapes and in one behind a symbolic link; exhaustive family closed-documents: an unsaved edit, a close, and the document reached again through an include) - with unopened files rewritten on disk, also to same-length texts under an unchanged modification time, and with a file that some variants include in vain appearing, disappearing, being opened unsaved and closed - compared with a fresh analysis of disk overlaid by the open buffers.",
    note="every edit is followed by set_root_file; hash-ordered result lists are compared sorted; FileIds are normalised to paths",
    technique="stateful property-based testing: history generation with a from-scratch differential oracle"),
  "C16": dict(cat="exploration", design="§5 C16",
@@ -55,7 +55,7 @@ CHECKS = {
    note="the generator's scoping rules were audited against llvm-tblgen-14; uses of a field after a let override may resolve to the declaration or an override identifier; reference sets of overridden fields are not asserted",
    technique="property-based testing with a by-construction oracle (scope-tracking program generator)"),
  "C13": dict(cat="fault_enumeration", design="§5 C13",
-   text="Soundness: 20000 well-formed SEM programs per quick run (incl. list pastes, !if over records, defm with class parents, records named after their defm and used as values) must produce no diagnostic in any file, nor may the 18 vendored files that llvm-tblgen-14 accepts as roots (14 LLVM-14 headers such as Target.td and Intrinsics.td, four hand-written backend-style files; LF and CRLF). Completeness: fourteen fault classes (undefined class / multiclass / identifier / field read / field named by a let, missing include, dropped and surplus template argument, required positional arguments removed while named ones stay, type-incompatible value, operator arity +1/-1, deleted token in root / in an included file) are seeded one at a time at a generated eligible site (typed sites: initialisers, template arguments and every operand of the integer operators); a diagnostic must intersect the site in the seeded file, and faults in the root must leave the included files clean.",
+   text="Soundness: 20000 well-formed SEM programs per quick run (incl. list pastes, !if over records, defm with class parents, records named after their defm and used as values, self-instantiating multiclasses, !if and lists over records of unrelated classes) must produce no diagnostic in any file, nor may the 18 vendored files that llvm-tblgen-14 accepts as roots (14 LLVM-14 headers such as Target.td and Intrinsics.td, four hand-written backend-style files; LF and CRLF). Completeness: fourteen fault classes (undefined class / multiclass / identifier / field read / field named by a let, missing include, dropped and surplus template argument, required positional arguments removed while named ones stay, type-incompatible value, operator arity +1/-1, deleted token in root / in an included file) are seeded one at a time at a generated eligible site (typed sites: initialisers, template arguments, every operand of the integer operators and the elements of list literals); a diagnostic must intersect the site in the seeded file, and faults in the root must leave the included files clean.",
    note="well-formedness audited against llvm-tblgen-14 on its feature subset; token deletions restricted to ';', '=' (not before '{') and ':' whose absence is locally detectable; type faults use literals for which no TableGen conversion exists",
    technique="property-based testing + single-fault seeding over generated programs"),
  "C18": dict(cat="exploration", design="§5 C18",
@@ -67,7 +67,7 @@ CHECKS = {
    note="label/signature formatting matched by containment; hints of multiclass references not asserted; fields overridden by let are exempt from the use=declaration clause",
    technique="property-based testing with a by-construction oracle"),
  "C08": dict(cat="exploration", design="§5 C08",
-   text="The real Server runs in-process; a controlled scheduler built on schedule-point hooks (handlers, set_file_content, snapshot tasks, vfs reads) enumerates, per scenario (5 handlers - change root, change included, open included, re-send identical text, close root - x {no request, each of the 8 request kinds; thorough: every pair of request kinds}, with the previous notification's diagnostics task alive), every interleaving with at most 1 preemption (thorough: 3) by stateless DFS; blocked threads are recognised from /proc (sleeping, unchanged context-switch counters), a deadlock is reported when no actor can be released while some are blocked. Plus uncontrolled bursts (all 'change, request' pairs, workspace-switch sequences over documents that carry diagnostics, a third document and a root that drops its include, wide-workspace sequences - 40/300 includes, 200/3000 uses, the next edit sent the moment publishing starts - and random operation lists on documents of 1..300 classes) where a missing answer counts only with all-threads-blocked evidence. The client announces the capabilities a current editor announces (dynamic registration, workspace/*/refresh, work-done progress) and answers every server-to-client request at once, behind what it has already written.",
+   text="The real Server runs in-process; a controlled scheduler built on schedule-point hooks (handlers, set_file_content, snapshot tasks, vfs reads) enumerates, per scenario (5 handlers - change root, change included, open included, re-send identical text, close root - x {no request, each of the 8 request kinds; thorough: every pair of request kinds}, with the previous notification's diagnostics task alive), every interleaving with at most 1 preemption (thorough: 3) by stateless DFS; blocked threads are recognised from /proc (sleeping, unchanged context-switch counters), a deadlock is reported when no actor can be released while some are blocked. Plus uncontrolled bursts (all 'change, request' pairs, request floods of 2..32 requests in flight when an edit arrives, workspace-switch sequences over documents that carry diagnostics, a third document and a root that drops its include, wide-workspace sequences - 40/300 includes, 200/3000 uses, the next edit sent the moment publishing starts - and random operation lists on documents of 1..300 classes) where a missing answer counts only with all-threads-blocked evidence. The client announces the capabilities a current editor announces (dynamic registration, workspace/*/refresh, work-done progress) and answers every server-to-client request at once, behind what it has already written.",
    note="liveness = completes under every enumerated schedule of these bounded scenarios at hook granularity; preemption-bounded, not all interleavings; OS pre-emption inside lock implementations is not controlled; timeouts without blocked-thread evidence are inconclusive",
    technique="schedule enumeration (stateless DFS, preemption-bounded) with a controlled scheduler + randomized stress"),
  "C09": dict(cat="exploration", design="§5 C09",
@@ -75,7 +75,7 @@ CHECKS = {
    note="isolates server.rs/to_proto.rs/from_proto.rs: a wrong range computed by the ide layer appears on both sides",
    technique="property-based testing: differential between the server's JSON and an ide-level oracle through a reference position mapper"),
  "C11": dict(cat="exploration", design="§5 C11",
-   text="Histories of didOpen/didChange (all first-step x second-step pairs over 24 text variants, each variant in 3 line layouts of the same bytes, re-layout pairs, random histories up to 8 steps, back-to-back bursts, histories in which a file that was included in vain comes into being) observed through the publishDiagnostics stream in lock-step; after every step the last publication per URI must equal a fresh analysis of the current state (empty for files outside the workspace) and versions must not decrease.",
+   text="Histories of didOpen/didChange (all first-step x second-step pairs over 24 text variants, each variant in 3 line layouts of the same bytes, re-layout pairs, random histories up to 8 steps, back-to-back bursts, histories in which a file that was included in vain comes into being, histories in which files the editor never opens are written by another program, enter the workspace through an include and leave it at a root switch) observed through the publishDiagnostics stream in lock-step; after every step the last publication per URI must equal a fresh analysis of the current state (empty for files outside the workspace) and versions must not decrease.",
    note="buffer = disk in this check (C12 covers the difference); idle = all spawned tasks ended + barrier request",
    technique="stateful property-based testing against a from-scratch oracle"),
  "C12": dict(cat="exploration", design="§5 C12",
